@@ -30,6 +30,7 @@ def main():
     ap.add_argument("--tier", default="both")
     ap.add_argument("--seed", default="0")
     ap.add_argument("--missing", action="store_true", help="only seeds whose meta.json has no detected_by yet")
+    ap.add_argument("--no-write", action="store_true", help="print the outcome only (e.g. sweeps over other VERIF_SEED values); meta.json is left as it is")
     a = ap.parse_args()
     only = set(x for x in a.only.split(",") if x)
     if WT.exists():
@@ -83,6 +84,9 @@ def main():
                     break
             sh("git", "-C", str(WT), "checkout", "--", ".")
             sh("git", "-C", str(WT), "clean", "-fdq")
+            if a.no_write:
+                rows.append((d.name, "DETECTED %s" % res["tier"] if res["exit_code"] == 1 else "MISSED (exit %s)" % res["exit_code"]))
+                continue
             meta["detected_by"] = res if res and res["exit_code"] == 1 else None
             if res and res["exit_code"] != 1:
                 meta["not_detected"] = res
